@@ -5,7 +5,10 @@ From RG.Base Require Import Outcome GoSlice.
 From RG.Regex Require Import Utf8 Regex.
 Import ListNotations.
 
-Inductive pred_id := PredIsUpper | PredIsLower.   (* unicode.IsUpper, unicode.IsLower *)
+(* the rune predicates of package unicode (func(rune) bool) a prefixRunePredMatcher may hold *)
+Inductive pred_id :=
+| PredIsUpper | PredIsLower | PredIsTitle | PredIsLetter | PredIsDigit | PredIsNumber | PredIsSpace
+| PredIsPunct | PredIsSymbol | PredIsMark | PredIsControl | PredIsGraphic | PredIsPrint.
 
 Inductive matcher :=
 | MContains (v : bytes)      (* containsLiteralMatcher *)
@@ -14,8 +17,17 @@ Inductive matcher :=
 | MEq (v : bytes)            (* eqLiteralMatcher *)
 | MPrefixPred (p : pred_id). (* prefixRunePredMatcher *)
 
-Definition pred_eqb (a b : pred_id) : bool :=
-  match a, b with PredIsUpper, PredIsUpper | PredIsLower, PredIsLower => true | _, _ => false end.
+Definition pred_tag (p : pred_id) : nat :=
+  match p with
+  | PredIsUpper => 0 | PredIsLower => 1 | PredIsTitle => 2 | PredIsLetter => 3 | PredIsDigit => 4 | PredIsNumber => 5
+  | PredIsSpace => 6 | PredIsPunct => 7 | PredIsSymbol => 8 | PredIsMark => 9 | PredIsControl => 10 | PredIsGraphic => 11
+  | PredIsPrint => 12
+  end%nat.
+
+Definition pred_eqb (a b : pred_id) : bool := Nat.eqb (pred_tag a) (pred_tag b).
+
+Lemma pred_eqb_eq a b : pred_eqb a b = true -> a = b.
+Proof. destruct a, b; cbn; intros H; try reflexivity; discriminate H. Qed.
 
 Definition matcher_eqb (a b : matcher) : bool :=
   match a, b with
@@ -29,6 +41,17 @@ Definition opt_matcher_eqb (a b : option matcher) : bool :=
 
 Definition pat_upper : bytes := [94; 92; 112; 123; 76; 117; 125]%Z.  (* ^\p{Lu} *)
 Definition pat_lower : bytes := [94; 92; 112; 123; 76; 108; 125]%Z.  (* ^\p{Ll} *)
+
+(* the prefix-class table: pattern strings compared verbatim by compileOptimized, each with the rune predicate the
+   prefixRunePredMatcher built for it holds. The table itself is REGENERATED from the source (gen_prefix_table);
+   the first entry with an equal key wins (a Go switch / map has no duplicate keys) *)
+Definition prefix_table := list (bytes * pred_id).
+
+Fixpoint table_find (s : bytes) (t : prefix_table) : option pred_id :=
+  match t with
+  | [] => None
+  | (k, p) :: t' => if bytes_eqb s k then Some p else table_find s t'
+  end.
 
 (* the literal a fast path may be built from: case-sensitive, and every rune survives string(rune) unchanged and
    differs from the decoder's error value *)
@@ -57,27 +80,24 @@ Definition spec_shape (re : regex) : option matcher :=
   | _ => None
   end.
 
-Definition spec_select (s : bytes) (re : regex) : option matcher :=
+Definition spec_select (tbl : prefix_table) (s : bytes) (re : regex) : option matcher :=
   match spec_shape re with
   | Some mt => Some mt
-  | None =>
-      if bytes_eqb s pat_upper then Some (MPrefixPred PredIsUpper)
-      else if bytes_eqb s pat_lower then Some (MPrefixPred PredIsLower)
-      else None
+  | None => option_map MPrefixPred (table_find s tbl)
   end.
 
 Section FastPaths.
 Variable fold_rel : rune -> rune -> bool.       (* unicode.SimpleFold orbits *)
-Variable pred_fn : pred_id -> rune -> bool.     (* unicode.IsUpper / unicode.IsLower *)
+Variable pred_fn : pred_id -> rune -> bool.     (* unicode.IsUpper, unicode.IsLower, ... *)
 Variable parses_to : bytes -> regex -> Prop.    (* syntax.Parse(s, syntax.Perl) returns re *)
+Variable tbl : prefix_table.                    (* the table of prefix classes of the current source *)
 
-(* what syntax.Parse makes of the two pattern strings compared verbatim by compileOptimized, and that the
-   class it produces is the one unicode.IsUpper / IsLower decide (checked for every rune by the harness) *)
-Hypothesis parse_upper : forall re, parses_to pat_upper re ->
-  exists rg, re = Concat [BeginText; CharClass rg] /\ forall c, in_ranges rg c = pred_fn PredIsUpper c.
-Hypothesis parse_lower : forall re, parses_to pat_lower re ->
-  exists rg, re = Concat [BeginText; CharClass rg] /\ forall c, in_ranges rg c = pred_fn PredIsLower c.
-Hypothesis pred_error : forall p, pred_fn p rune_error = false.
+(* what must hold of EVERY entry of the table: syntax.Parse makes `^` + one character class of the pattern string, the
+   class is the one the entry's predicate decides -- for all runes --, and the predicate rejects the decoder's error
+   value (the matcher decodes the empty input to it). Checked for the regenerated table on every run: the classes and the
+   predicates are observed for every rune, and FastPath.table_check_sound turns the comparison into this statement. *)
+Hypothesis table_sound : forall s p re, table_find s tbl = Some p -> parses_to s re ->
+  exists rg, re = Concat [BeginText; CharClass rg] /\ (forall c, in_ranges rg c = pred_fn p c) /\ pred_fn p rune_error = false.
 
 (* matchers.go *)
 Definition run_matcher (mt : matcher) (b : bytes) : bool :=
@@ -138,10 +158,10 @@ Proof.
 Qed.
 
 Lemma pred_equiv p rg b :
-  (forall c, in_ranges rg c = pred_fn p c) ->
+  (forall c, in_ranges rg c = pred_fn p c) -> pred_fn p rune_error = false ->
   (pred_fn p (decode_first b) = true <-> search fold_rel (Concat [BeginText; CharClass rg]) (decode b)).
 Proof.
-  intros Hrg. rewrite search_begin_class, decode_first_head.
+  intros Hrg pred_error. rewrite search_begin_class, decode_first_head.
   destruct (decode b) as [|c l]; cbn [hd hd_error].
   - rewrite pred_error. split; [discriminate|]. intros (c & H & _). discriminate.
   - rewrite <- Hrg. split; [intros H; exists c; auto|]. intros (c' & [= <-] & H). exact H.
@@ -149,18 +169,70 @@ Qed.
 
 (* fast_path_equiv, stated for the specification of the selection *)
 Theorem spec_select_equiv s re mt :
-  parses_to s re -> spec_select s re = Some mt ->
+  parses_to s re -> spec_select tbl s re = Some mt ->
   forall b, bytes_ok b -> (run_matcher mt b = true <-> search fold_rel re (decode b)).
 Proof.
   intros Hp Hs b Hb. unfold spec_select in Hs.
   destruct (spec_shape re) as [mt'|] eqn:E.
   - injection Hs as <-. now apply shape_equiv.
-  - destruct (bytes_eqb s pat_upper) eqn:E1.
-    + injection Hs as <-. apply bytes_eqb_eq in E1. subst s.
-      destruct (parse_upper _ Hp) as (rg & -> & Hrg). cbn [run_matcher]. now apply pred_equiv.
-    + destruct (bytes_eqb s pat_lower) eqn:E2; [|discriminate].
-      injection Hs as <-. apply bytes_eqb_eq in E2. subst s.
-      destruct (parse_lower _ Hp) as (rg & -> & Hrg). cbn [run_matcher]. now apply pred_equiv.
+  - destruct (table_find s tbl) as [p|] eqn:Et; [|discriminate].
+    injection Hs as <-.
+    destruct (table_sound _ _ _ Et Hp) as (rg & -> & Hrg & He). cbn [run_matcher]. now apply pred_equiv.
 Qed.
 
 End FastPaths.
+
+(* ------------------------------------------------------------------------------------------------------------------
+   Discharging table_sound for a concrete table: the classes syntax.Parse builds for the table's pattern strings and the
+   range tables of the unicode predicates are observed (both canonical: sorted, maximal ranges), compared here, and the
+   comparison implies the hypothesis for ALL runes. *)
+Fixpoint ranges_eqb (a b : list (rune * rune)) : bool :=
+  match a, b with
+  | [], [] => true
+  | (l1, h1) :: a', (l2, h2) :: b' => (l1 =? l2)%Z && (h1 =? h2)%Z && ranges_eqb a' b'
+  | _, _ => false
+  end.
+
+Lemma ranges_eqb_eq a b : ranges_eqb a b = true -> a = b.
+Proof.
+  revert b. induction a as [|[l1 h1] a IH]; destruct b as [|[l2 h2] b]; cbn; try discriminate; [reflexivity|].
+  intros H. apply andb_prop in H as [H H3]. apply andb_prop in H as [H1 H2].
+  apply Z.eqb_eq in H1, H2. subst. f_equal. now apply IH.
+Qed.
+
+Fixpoint parse_find (s : bytes) (ps : list (bytes * regex)) : option regex :=
+  match ps with
+  | [] => None
+  | (k, re) :: ps' => if bytes_eqb s k then Some re else parse_find s ps'
+  end.
+
+(* a parse relation that agrees with the observed parses (and says anything elsewhere) *)
+Definition agrees_with (parses : list (bytes * regex)) (s : bytes) (re : regex) : Prop :=
+  forall re', parse_find s parses = Some re' -> re = re'.
+
+Definition entry_ok (pred_rg : pred_id -> list (rune * rune)) (parses : list (bytes * regex)) (e : bytes * pred_id) : bool :=
+  match parse_find (fst e) parses with
+  | Some (Concat [BeginText; CharClass rg]) => ranges_eqb rg (pred_rg (snd e)) && negb (in_ranges rg rune_error)
+  | _ => false
+  end.
+
+Theorem table_check_sound pred_rg parses tbl :
+  forallb (entry_ok pred_rg parses) tbl = true ->
+  forall s p re, table_find s tbl = Some p -> agrees_with parses s re ->
+    exists rg, re = Concat [BeginText; CharClass rg] /\
+      (forall c, in_ranges rg c = in_ranges (pred_rg p) c) /\ in_ranges (pred_rg p) rune_error = false.
+Proof.
+  induction tbl as [|[k q] t IH]; cbn [forallb table_find]; intros Hall s p re Hf Hag; [discriminate|].
+  unfold agrees_with in Hag.
+  apply andb_prop in Hall as [He Hall].
+  destruct (bytes_eqb s k) eqn:Ek.
+  - injection Hf as <-. apply bytes_eqb_eq in Ek. subst k.
+    unfold entry_ok in He. cbn [fst snd] in He.
+    destruct (parse_find s parses) as [re0|] eqn:Ep; [|discriminate].
+    specialize (Hag _ eq_refl). subst re0.
+    destruct re; try discriminate.
+    destruct rs as [|a [|b [|c rs]]]; try discriminate; destruct a; try discriminate; destruct b; try discriminate.
+    apply andb_prop in He as [H1 H2]. apply ranges_eqb_eq in H1. apply negb_true_iff in H2.
+    eexists. split; [reflexivity|]. rewrite <- H1. split; [reflexivity|exact H2].
+  - eapply IH; eauto.
+Qed.
